@@ -15,6 +15,7 @@ CONSTANTS
   Callers = {"pred"}
   SelMode = "all"
   WithNA = FALSE
+  NAInExpected = FALSE
   ExtraSet <- EX_none
   Export = TRUE
   SampleMod = 1
